@@ -213,6 +213,13 @@ def types_task(ck, task):
                         ok = ok and any(x["exc"] == mm for x in rs if x["kind"] == "explicit")
                     ck.verdict("G-REFUSE", f"{cls}.unpack", f"a TLV with type octet {octet:#04x} {'raises TlvTypeMissmatch' if valid_other else 'is refused'}, never an object of this class",
                                [] if ok else [f"returns {show(r)[:40]}" if not env.dead else f"raises {sorted({x['exc'].split('.')[-1] for x in rs})}"], "all paths raise")
+                    if valid_other and env.dead:
+                        # once the generic TLV decoder has accepted the octets (a well-formed TLV of a foreign type), the
+                        # type-mismatch error is the only failure: no other refusal of the concrete class may come first
+                        early = [x for x in rs if x["kind"] == "explicit" and x["exc"] != mm and not x["func"].endswith("CfdpTlv.unpack")
+                                 and not any("CfdpTlv.unpack" in str(fr) for fr in x["stack"])]
+                        ck.verdict("G-REFUSE", f"{cls}.unpack", f"a well-formed TLV with foreign type octet {octet:#04x} fails with TlvTypeMissmatch on every path (no other refusal of {cls} precedes the type check)",
+                                   [f"`{x['text'][:60]}` in {x['func']} raises {x['exc'].split('.')[-1]} for a foreign type" for x in early[:2]], "explicit raises outside CfdpTlv.unpack are all TlvTypeMissmatch")
             for other, tval in TLV_TYPES.items():
                 it = new_interp(P); env = Env()
                 g = construct(it, env, f"{TL}.CfdpTlv", dict(tlv_type=CF.enumc(P, f"{DEFS}.TlvType", tval), value=sym("value", ty="bytes")))
